@@ -5,10 +5,10 @@ variant -> emitted tags -> decoded variant is closed and class-preserving and
 stable under re-encoding; writer and reader agree on every layout (and with the
 format table); sizes the format cannot express are errors, never truncations.
 """
-from ..core import callee_of, callee_names
+from ..core import callee_of, callee_names, is_call_to
 from ..families import check_casts
 from ..wire import fmt_sig
-from ..etf import (load_spec, dispatch_table, DEC, ENC, OWNED, encoder_dispatch, writer_paths, tags_of, encoder_fns)
+from ..etf import (load_spec, dispatch_table, DEC, ENC, OWNED, BORROWED, encoder_dispatch, writer_paths, tags_of, encoder_fns)
 
 ATOMS_255 = ('`atoms` is collected from `atom_set`, whose size is checked by the dominating `atom_set.len() > 255 -> TooManyAtoms` return; '
              'an enumerate() index over it is < 255')
@@ -153,3 +153,64 @@ def run(ctx):
     ctx.rule('C01.3-no-truncation', 'every length/arity/count written with a narrower width in the encoder is range-guarded or try_from-ed', floor=8)
     for fn in sorted(p for p in ctx.F.bodies if p.startswith(ENC) and ctx.F.bodies[p]['kind'] in ('Fn', 'Closure')):
         check_casts(ctx, P.B(fn), 'C01.3-no-truncation', include_float=False, reviewed=REVIEWED_CAST)
+
+    # ---------------- clause 4: integers written as nested terms ----------------------------------------
+    # A field written with encode_integer() is a nested term: beyond the i32 range it is a SMALL_BIG_EXT and the
+    # generic term parser hands it back as BigInt. The parser of the enclosing layout must take it in that shape.
+    ctx.rule('C01.4-nested-integers', 'an integer field the encoder writes as a nested term whose range exceeds 32 bits may come back as a big integer: '
+             'the parser of that layout accepts the BigInt variant wherever it accepts Integer', floor=2)
+    from ..ranges import Ranges
+    from ..wire import error_blocks
+    from ..families import bodies_of_fn
+    I32 = (-(1 << 31), (1 << 31) - 1)
+    dec_b, _ = dispatch_table(ctx, DEC + 'parse_term_borrowed', BORROWED)
+    for fn in sorted(encoder_fns(ctx.F)):
+        if fn in (ENC + 'encode_integer', ENC + 'encode_term_impl'):
+            continue
+        B = P.B(fn)
+        wide = []
+        R = None
+        for bb, t in B.calls():
+            if not is_call_to(t, ENC + 'encode_integer'):
+                continue
+            R = R or Ranges(B)
+            rng = R.range_of(t['args'][1], bb)
+            if rng[0] < I32[0] or rng[1] > I32[1]:
+                wide.append((bb, rng))
+        if not wide:
+            continue
+        for tag in sorted(tags_of(P, fn) - {82, 121, 80}):
+            for tbl, adt, nm in ((dec, OWNED, 'owned'), (dec_b, BORROWED, 'borrowed')):
+                ent = (tbl or {}).get(tag)
+                if not ent or not ent.get('parser'):
+                    continue
+                inst = '%s:%d:%s' % (fn.rsplit('::', 1)[1], tag, nm)
+                narrow = []
+                n_sw = 0
+                for PB in bodies_of_fn(P, ent['parser']):
+                    err = error_blocks(PB)
+                    vs = [v['n'] for v in ctx.F.adts[adt]['variants']]
+                    for bb in sorted(PB.live_blocks()):
+                        sd = PB.switch_on_discr(bb)
+                        if not sd or adt not in sd[1]:
+                            continue
+                        acc = set()
+                        for v, b in sd[2]:
+                            reg = PB.reachable(b)
+                            if PB.return_blocks() and any(r_ in reg for r_ in PB.return_blocks()) and \
+                                    any(r_ in PB.reachable(b, removed_blocks=err) for r_ in PB.return_blocks()):
+                                acc.add(vs[v])
+                        if 'Integer' in acc:
+                            n_sw += 1
+                            if 'BigInt' not in acc:
+                                narrow.append((PB, bb))
+                if n_sw == 0:
+                    ctx.undecided('C01.4-nested-integers', inst, 'the parser %s has no match on a nested integer term' % ent['parser'])
+                elif narrow:
+                    PB, bb = narrow[0]
+                    ctx.bad('C01.4-nested-integers', inst, '%s writes %d field(s) with encode_integer whose range [%s, %s] exceeds 32 bits (encoded as SMALL_BIG_EXT from 2^31), '
+                            'but %s accepts only the Integer variant of the nested term in %d place(s): such a value encodes and cannot be decoded'
+                            % (fn.rsplit('::', 1)[1], len(wide), wide[0][1][0], wide[0][1][1], ent['parser'].rsplit('::', 1)[1], len(narrow)),
+                            ctx.where(PB, narrow[0][1]), key='CLOSURE:%s:nested-integer-as-bigint' % ent['parser'])
+                else:
+                    ctx.ok('C01.4-nested-integers', inst, '%d nested integer match(es) in %s accept BigInt' % (n_sw, ent['parser'].rsplit('::', 1)[1]), ctx.where(PB))
